@@ -166,7 +166,7 @@ def translateAll : List Stmt → Option (List Stmt)
   | [] => some []
   | s :: rest =>
     match translateOperand s.operand s.row with
-    | .ok p => (translateAll rest).map ({ s with pkg := p, fixedSize := !(p.needsRes || !p.choices.isEmpty) } :: ·)
+    | .ok p => (translateAll rest).map ({ s with pkg := p, fixedSize := p.choices.isEmpty } :: ·)      -- only a label,PCR operand has a size that is still open
     | .error _ => none
 
 /-! #### PCR size fixpoint -/
@@ -282,31 +282,37 @@ def assignAddrs : List Stmt → Nat → Outcome (List Stmt)
 def addrOf (ss : List Stmt) (i : Nat) : Option Value := (ss[i]?).map (·.pkg.address)
 def addrIntOf (ss : List Stmt) (i : Nat) : Option Nat := (addrOf ss i).bind Value.int?
 
-/-- `ExpressionValue.calculate_address_offset` -/
+/-- the value of one operand of a label expression: a label's ADDRESS, a (signed) number; anything else is an
+"unresolved expression" (`diag`) -/
+def addrOperand (ss : List Stmt) (x : Value) : Outcome Int :=
+  if x.isAddress then (match x.int? with
+                       | some j => (match addrIntOf ss j with | some a => .ok (a : Int) | none => .internal)
+                       | none => .internal)
+  else if x.isNumeric then (match x.int? with
+                            | some n => .ok (if x.isNegative then -(n : Int) else n) | none => .internal)
+  else .diag
+
+/-- `ExpressionValue.calculate_address_offset`: left `op` right on the two operand values IN THIS ORDER; a result below
+zero is reduced modulo 65536, one above 65535 and a division by zero are diagnostics -/
 def addrOffset (ss : List Stmt) (v : Value) : Outcome Value :=
   match v with
   | .expr l r op _ _ =>
-    let other := if l.isAddress then r else l
-    let addOf : Outcome Int :=                    -- the other operand: a label's address, a (signed) number, else "unresolved expression"
-      if other.isAddress then (match other.int? with
-                               | some j => (match addrIntOf ss j with | some x => .ok (x : Int) | none => .internal)
-                               | none => .internal)
-      else if other.isNumeric then (match other.int? with
-                                    | some n => .ok (if other.isNegative then -(n : Int) else n) | none => .internal)
-      else .diag
-    match (if l.isAddress then l.int? else r.int?), addOf with
-    | _, .diag => .diag
-    | some ai, .ok add =>
-      match addrIntOf ss ai with
-      | none => .internal
-      | some a =>
-        let z : Option Int :=
-          if op == '+' then some ((a : Int) + add) else if op == '-' then some (((a : Int) - add) % 65536)
-          else if op == '*' then some ((a : Int) * add) else (if add = 0 then none else some (Int.tdiv (a : Int) add))
-        match z with
-        | none => .diag                                          -- ZeroDivisionError, reported as a TranslationError
-        | some z => (match numericOfInt z (some 4) .extended with | .ok nv => .ok nv | .error _ => .diag)
-    | _, _ => .internal
+    match addrOperand ss l with
+    | .ok a =>
+      (match addrOperand ss r with
+       | .ok b =>
+         let z : Option Int :=
+           if op == '+' then some (a + b) else if op == '-' then some (a - b)
+           else if op == '*' then some (a * b) else (if b = 0 then none else some (Int.tdiv a b))
+         (match z with
+          | none => .diag                                          -- ZeroDivisionError, reported as a TranslationError
+          | some z =>
+            let z := if z < 0 then z % 65536 else z
+            (match numericOfInt z (some 4) .extended with | .ok nv => .ok nv | .error _ => .diag))
+       | o => (match o with | .diag => .diag | .internal => .internal | .diverged => .diverged | .ok _ => .internal))
+    | .diag => .diag
+    | .internal => .internal
+    | .diverged => .diverged
   | _ => .internal
 
 def sumSize (ss : List Stmt) (lo hi : Nat) : Nat := (sumSizes ss lo hi).1
@@ -357,6 +363,15 @@ def fixOne (ss : List Stmt) (i : Nat) (s : Stmt) : Outcome Stmt :=
               | _, _ => (match s2.pkg.additional.int? with
                          | some t => (match addrIntOf ss t with | some a => .ok a | none => .internal)
                          | none => .internal)
+            if s2.pkg.choices.isEmpty then
+              -- a label as constant offset of a pointer register (LDA TABLE,X): the address itself is the offset
+              match rel with
+              | .ok r => (match numericOfInt r (some 4) .none with
+                          | .ok v => .ok { s2 with pkg := { s2.pkg with additional := v } }
+                          | .error _ => .internal)
+              | .diag => .diag
+              | _ => .internal
+            else
             match rel, addrIntOf ss i with
             | .ok r, some start =>
               let jump : Int := (r : Int) - start - s2.pkg.size
